@@ -83,6 +83,19 @@ def dataset_case(obs, rng, conv, spec):
             obs.cls('mesh:duplicate-node-coordinates')
     model = make(rng, conv, **kw)
     ds = model.encode()
+    if chance(rng, 0.3):
+        # a file-backed dataset, and always the same path (rewritten with another dataset each time): what is
+        # triangulated is the dataset's content, not where it was read from
+        import os
+        import tempfile
+        import xarray
+        path = os.path.join(tempfile.gettempdir(), 'c14-reused-%d.nc' % os.getpid())
+        if os.path.exists(path):
+            os.remove(path)
+        ds.to_netcdf(path)
+        with xarray.open_dataset(path) as opened:
+            ds = opened.load()
+        obs.cls('dataset:file-backed-at-a-reused-path')
     spec['model'] = model.describe()
     obs.cls('dataset:' + conv)
     face = model.kinds[model.default_kind]
